@@ -471,3 +471,98 @@ def c16(tier):
 
 
 REGISTRY["C16"] = c16
+
+
+# ---------------------------------------------------------------------------------------------
+# C05: output is a deterministic function of source and options
+# ---------------------------------------------------------------------------------------------
+def det_programs(tier):
+    progs = []
+    lits = ['"one"', '"two"', '"three"', '"four"', '"five"']
+    for k in range(0, 6 if tier == "thorough" else 5):
+        args = ", ".join("char *p%d" % i for i in range(k))
+        call = ", ".join(lits[:k])
+        progs.append("void pr(%s) { }\nvoid main() { pr(%s); }\n" % (args, call))
+        if k:
+            progs.append("const char *t0[] = {%s};\nvoid main() { }\n" % call)
+            progs.append("char *q; void pr(char *s) { }\nvoid main() { pr(%s); }\n" % lits[0] + "".join("void g%d() { pr(%s); pr(%s); }\n" % (i, lits[i], lits[(i + 1) % 5]) for i in range(k)))
+            progs.append("char *q; void main() { %s }\n" % " ".join("q = %s;" % l for l in lits[:k]))
+            progs.append("char *q; unsigned char a; void pr(char *s, char *t) { }\nvoid main() { if (a) pr(%s, %s); else pr(%s, %s); }\n" % (lits[0], lits[k - 1], lits[k - 1], lits[0]))
+    for n in (3, 12, 40):
+        decl = "".join("unsigned char v%d;\n" % i for i in range(n))
+        fns = "".join("void f%d() { v%d++; }\n" % (i, i) for i in range(n))
+        body = " ".join("f%d();" % i for i in range(n))
+        progs.append(decl + fns + "void main() { %s }\n" % body)
+        progs.append(decl + "".join("inline void f%d() { v%d++; }\n" % (i, i) for i in range(min(n, 8))) + "void main() { %s }\n" % " ".join("f%d();" % i for i in range(min(n, 8))))
+    progs.append("unsigned char a; void interrupt nmi() { a++; }\nvoid interrupt irq() { a--; }\nvoid h() { a = 1; }\nvoid main() { h(); }\n")
+    progs.append("unsigned char a, b; char f(char x) { char l1; char l2; l1 = x; l2 = l1 + 1; return l2; }\nvoid main() { char m1; m1 = f(a); { char m1; m1 = 2; b = m1; } a = m1; }\n")
+    progs.append('#define S "macro string"\nchar *q; void pr(char *s) { }\nvoid main() { pr(S); pr("lit"); pr(S); }\n')
+    progs.append("unsigned char a; void main() { a = 300; }\n")                      # a warning is printed
+    progs.append("char *p; unsigned char a; void main() { a = *p; }\n")
+    return progs
+
+
+def c05(tier):
+    t0 = time.time()
+    pid = "C05"
+    verdict = common.Verdict(pid)
+    progs = det_programs(tier)
+    optsets = [["-O1"], ["-O0"], ["-O1", "--insert-code"], ["-O1", "-W", "all"]]
+    rounds = 8 if tier == "quick" else 32
+    hist = []
+    for r in range(rounds):
+        cases = []
+        order = list(range(len(progs)))
+        random.Random(common.seed() * 1000 + r).shuffle(order)
+        # each program twice within a process, interleaved with the others
+        for rep in range(2):
+            for pi in order:
+                cases.append(dict(id="%d.%d.%d" % (r, rep, pi), src=progs[pi], cfg=dict(text=True), variants=[dict(name=" ".join(o), args=o) for o in optsets]))
+        obs = common.run_harness("compile", cases, "c05", nproc=2)
+        for c, ob in zip(cases, obs):
+            pi = int(c["id"].split(".")[2])
+            for o in ob:
+                core = {k: o.get(k) for k in ("status", "err", "vars", "funcs", "tree", "inuse", "panic")}
+                dg = hashlib.sha1(json.dumps(core, sort_keys=True).encode()).hexdigest()
+                hist.append(dict(src=pi, opts=o.get("variant", ""), digest=dg, proc="%s" % c["id"], _core=core))
+    d = common.workdir("det_c05")
+    p = os.path.join(d, "hist.ndjson")
+    with open(p, "w") as f:
+        for h in hist:
+            f.write(json.dumps({k: v for k, v in h.items() if not k.startswith("_")}) + "\n")
+    cfg = os.path.join(d, "Determinism.cfg")
+    open(cfg, "w").write("INIT Init\nNEXT Next\nINVARIANT Report\nCHECK_DEADLOCK FALSE\n")
+    res = common.run_tlc("Determinism", cfg=cfg, env={"HIST": p}, name="det_c05", tags={"NONDET"}, workers=1, heap="4g")
+    common.require_ok(res, "Determinism")
+    first = {}
+    for h in hist:
+        first.setdefault((h["src"], h["opts"]), h)
+    badprogs = {}
+    for (_, b) in res.lines:
+        badprogs.setdefault(b["src"], []).append(b)
+    kf = {}
+    for fd in verdict.findings:
+        for k in fd.get("cases", []):
+            kf[k] = fd["id"]
+    for pi, bs in sorted(badprogs.items()):
+        b = bs[0]
+        h = hist[b["n"] - 1]
+        f0 = first[(h["src"], h["opts"])]
+        diffkeys = [k for k in h["_core"] if h["_core"][k] != f0["_core"][k]]
+        key = "prog:%d" % pi
+        if key in kf:
+            verdict.attribute(kf[key])
+            continue
+        verdict.violation("program %d compiled with %s gives different results (%s differ) in %d of its compilations" % (pi, b["opts"], ",".join(diffkeys), len(bs)),
+                          dict(property=pid, source=progs[pi], options=b["opts"], differing_parts=diffkeys, first={k: f0["_core"][k] for k in diffkeys}, other={k: h["_core"][k] for k in diffkeys}))
+    cov = dict(evaluations=len(hist), distinct_nontrivial=len(first), rule="%d programs (k string literals in one call / initialiser list / function, 3-40 variables and functions, "
+               "inline functions, interrupt handlers, locals with shadowing, macro strings, a program that draws a warning) x %d option sets; each compiled twice per process, "
+               "interleaved with the others in shuffled order, in %d rounds of fresh processes; distinct = (program, options) pairs" % (len(progs), len(optsets), rounds),
+               samples=[dict(source=progs[i]) for i in (1, 7, len(progs) - 3)], compilations=len(hist), fresh_processes=rounds * 2, states=res.distinct,
+               attributed_to_known_findings=verdict.known, explanation="the recorded compile history is validated by TLC against Determinism.tla")
+    common.write_evidence(pid, tier, "exploration", cov, time.time() - t0, len(verdict.violations),
+                          ["a hash-order leak between 2 orders escapes %d independent compilations with probability 2^-%d" % (rounds * 4, rounds * 4 - 1), "diagnostics printed to stdout are not captured"])
+    return verdict.finish()
+
+
+REGISTRY["C05"] = c05
